@@ -377,9 +377,9 @@ class FeedChecker(ProgMixin):
             self.index = i
             if os.path.exists(path):
                 for piece in self.extract(path, partial):
-                    if (len(piece) == self.piece_length) or (i + 1 == len(
-                            self.paths)):
+                    if len(piece) == self.piece_length:
                         yield piece
+                        partial = bytearray()
                     else:
                         partial = piece
 
@@ -388,9 +388,12 @@ class FeedChecker(ProgMixin):
                 for pad in self._gen_padding(partial, length):
                     if len(pad) == self.piece_length:
                         yield pad
+                        partial = bytearray()
                     else:
                         partial = pad
             self.progbar.close_out()
+        if len(partial) > 0:
+            yield partial
 
     def extract(self, path: str, partial: bytearray) -> bytearray:
         """
